@@ -45,6 +45,7 @@ const (
 	sharpByte    = '#'
 	charSlash    = '/'
 	charDone     = 'C'
+	charFirst    = 'f'
 	vectorByte   = 'V'
 	binaryByte   = 'b'
 	octByte      = 'o'
@@ -178,6 +179,19 @@ const (
 		"aaaaaaaaaaaaaaaaaaaaaaaaaaaaaaaa" + // 0xa0
 		"aaaaaaaaaaaaaaaaaaaaaaaaaaaaaaaa" + // 0xc0
 		"aaaaaaaaaaaaaaaaaaaaaaaaaaaaaaaaC" //  0xe0
+
+	// The character just after #\ is always part of the character, even if
+	// it would otherwise end a token, such as #\( or #\;.
+	//   0123456789abcdef0123456789abcdef
+	charFirstMode = "" +
+		"ffffffffffffffffffffffffffffffff" + // 0x00
+		"ffffffffffffffffffffffffffffffff" + // 0x20
+		"ffffffffffffffffffffffffffffffff" + // 0x40
+		"ffffffffffffffffffffffffffffffff" + // 0x60
+		"ffffffffffffffffffffffffffffffff" + // 0x80
+		"ffffffffffffffffffffffffffffffff" + // 0xa0
+		"ffffffffffffffffffffffffffffffff" + // 0xc0
+		"fffffffffffffffffffffffffffffffff" //  0xe0
 
 	//   0123456789abcdef0123456789abcdef
 	intMode = "" +
@@ -673,6 +687,8 @@ func (r *reader) read(src []byte) {
 			r.mode = sharpMode
 		case charSlash:
 			r.tokenStart = r.pos + 1
+			r.mode = charFirstMode
+		case charFirst:
 			r.mode = charMode
 		case charDone:
 			r.pushChar(src)
@@ -818,6 +834,8 @@ func (r *reader) read(src []byte) {
 			r.raise("|symbol| not terminated")
 		case charMode:
 			r.pushChar(src)
+		case charFirstMode:
+			r.raise(`'#\' is not a valid character`)
 		case intMode:
 			r.pushInteger(src)
 		case bitVectorMode:
